@@ -192,6 +192,11 @@ def run_group(g, prop, use_cache=True):
     res["verdict"] = verdict
     bad_msgs = [m for m in msgs if re.search(r"ignoring (forall|exists)|VERIFICATION ERROR|not supported", m)]
     errors = [m for m in msgs if "error" in m.lower() and "assertion" not in m.lower()]
+    oom = [m for m in msgs if "out of memory" in m.lower()]
+    if oom:
+        res.update(status="undecided", reason="solver memory limit (%d GB): %s" % (g.mem_gb, oom[0]))
+        g.result = res
+        return g
     if verdict is None or not obl:
         res.update(status="undecided", reason="no verdict / zero obligations: " + _tail("\n".join(msgs[-8:]) + err))
         g.result = res
@@ -298,6 +303,13 @@ def run_property(prop, tier, groups, meta, replay_fn=None, jobs=None):
     t0 = time.time()
     seed = int(os.environ.get("VERIF_SEED", "0") or 0)
     groups = [g for g in groups if tier in g.tiers]
+    # declared timeouts are sized on an idle machine; they only stop runaway solver runs, so leave generous head room
+    # (a timeout is UNDECIDED = exit 2, which on the unchanged tree would make the check unusable)
+    scale = (3.0 if tier == "thorough" else 2.0) * float(os.environ.get("VERIF_TIMEOUT_SCALE", "1"))
+    for g in groups:
+        if not getattr(g, "_scaled", False):
+            g.timeout = int(g.timeout * scale)
+            g._scaled = True
     jobs = jobs or int(os.environ.get("VERIF_JOBS", "14"))
     shutil.rmtree(os.path.join(WORK, prop), ignore_errors=True)
     # heavy groups limit parallelism through weights
